@@ -1,4 +1,5 @@
 import GqlProofs.Schema.Perm
+import GqlProofs.Schema.ErrLoc
 import GqlProofs.Schema.Examples
 /-
   C17 — schema loading is order- and split-independent.
@@ -81,3 +82,22 @@ theorem C17_schema_perm_definitions {sd sd' : SchemaDoc} (hp : DefsPerm sd sd') 
 example : DefsPerm Examples.rootsAB { Examples.rootsAB with definitions := Examples.rootsAB.definitions.reverse } ∧
     (load Examples.rootsAB).isOk = true :=
   ⟨⟨List.reverse_perm _, rfl, rfl, rfl, rfl⟩, by decide⟩
+
+/-- **a load error names a file in which one of the nodes involved was written**: the error's
+    (line, column, source index) are those of a node of the merged document (`docPositions`: the
+    positions of definitions, extensions, fields, field types, arguments, argument types, applied
+    directives and their arguments, directive definitions, schema blocks and operation types), so the
+    reported file is the source that node was parsed from.
+    (The same statement is the loader half of C04, `C04_schema_error_loc`.) -/
+theorem C17_error_file {sd : SchemaDoc} {e : LoadError} (he : load sd = .err e) :
+    ∃ p ∈ docPositions sd, e.line = p.line ∧ e.col = p.col ∧ e.src = p.src :=
+  load_error_at_node he
+
+/-- non-vacuity: a rejected document -/
+example : ∃ e, load Examples.noPanicDoc = .err e := by
+  cases h : load Examples.noPanicDoc with
+  | err e => exact ⟨e, rfl⟩
+  | ok s => have : (load Examples.noPanicDoc).isOk = false := by decide
+            rw [h] at this; simp [LoadResult.isOk] at this
+  | panic => have : (load Examples.noPanicDoc).isPanic = false := by decide
+             rw [h] at this; simp [LoadResult.isPanic] at this
